@@ -2,11 +2,12 @@
 import itertools, math
 from fractions import Fraction
 import lib, storelib as S, arithlib as A
-from lib import Result, model_call, run_sharded, e_fmt, e_list, Reader, outcome
+from lib import Result, RMODES, OMODES, model_call, run_sharded, e_fmt, e_list, Reader, outcome
 
 RULE = ('array shapes up to 3x3 and lengths up to 8, operand formats with n_word<=12, element values from the extremes of the format (all most-negative, all most-positive, alternating) and random codes; '
         'sum, cumsum, prod, cumprod, dot / matmul (values only), trace, max, min, sort, clip, transpose, diagonal through the NumPy function and the equivalent method, axis None or any valid axis (also given as a negative number); trace and diagonal also with offset in {-2, -1, 1, 2}. '
         'The implementation result is compared with the exact result on the element values (Python integers / rationals), with the documented growth rule, with "no overflow flag", with isinstance(result, Fxp), and with the model (sum, cumsum, prod, cumprod, dot, trace). '
+        'Stratum T: the accumulating functions and max / min into a caller-chosen format (out= / out_like=) that holds every result exactly; stratum F: sum / prod through out= into ANY format and modes (words to 70 bits, n_frac -3..66), implementation against the model Reduce.fxp_sum_into / fxp_prod_into (opcode 112) only; stratum V: the value method on integer-valued elements with negative n_frac. '
         'Non-trivial = at least two elements and a non-zero result; distinct by full input.')
 ASSUMPTIONS = ['the NumPy dispatch glue (__array_function__, method wrappers) is exercised by running both call routes; it has no Gallina counterpart', 'matmul goes through the float route with an auto-sized result: only its values are compared']
 
@@ -248,14 +249,58 @@ def run_target(cases, res):
         except Exception as e:
             res.fail(c, 'C15: %s into a caller-chosen format raised %s' % (op, lib.exc_name(e)), got=str(e)[:300]); continue
         res.count('T:into-a-target-format', key=repr(c), nontrivial=any(e != 0 for e in exact))
+        if op in ('sum', 'prod') and c['target'] != 'out_like' and not (got != exact or fmt != (True, tnw, tnf) or st[0] or st[1]):
+            # the model of the same call (Reduce.fxp_sum_into / fxp_prod_into, opcode 112)
+            mo = model_call([[112, 0 if op == 'sum' else 2] + e_fmt(s, nw, nf) + [arr.size] + e_list(c['codes']) + e_fmt(True, tnw, tnf) + [RMODES.index('trunc'), OMODES.index('saturate')]])[0]
+            kind_, rd_ = outcome(mo)
+            if kind_ == 'ok': mf_ = (rd_.b(), rd_.z(), rd_.z()); mc_ = rd_.lst(rd_.z); mfl_ = (rd_.b(), rd_.b())
+            if kind_ != 'ok' or mc_ != lib.codes_of(z) or mfl_ != tuple(st[:2]):
+                res.fail(c, 'model Reduce.fxp_%s_into disagrees with the implementation although the property holds' % op, expected=str((kind_, mc_ if kind_ == 'ok' else None)), got=(lib.codes_of(z), st)); res.failures[-1]['no_input'] = True; continue
         if got != exact or fmt != (True, tnw, tnf) or st[0] or st[1] or lib.codes_of(x) != c['codes'] or (c['target'] != 'out_like' and not same):
             res.fail(c, 'C15: %s into a caller-chosen format that holds every result is not the exact result' % op, expected=([str(e) for e in exact[:9]], (True, tnw, tnf)), got=([str(g) for g in got[:9]], fmt, st))
+
+def gen_free_target(rng):
+    """sum / prod into ANY target format and modes (rounding and overflow act): implementation against the model only"""
+    s = rng.random() < 0.6; nw = rng.choice([2, 4, 8, 12, 20, 31]); nf = rng.randint(0, nw); lo, hi = S.fmt_bounds(s, nw)
+    n = rng.choice([2, 3, 4, 5]); op = rng.choice(['sum', 'sum', 'prod'])
+    if op == 'prod' and n * nw > 120: n = 2
+    codes = [rng.choice([lo, hi, 1, rng.randint(lo, hi), rng.randint(lo, hi)]) for _ in range(n)]
+    return {'f': [s, nw, nf], 'codes': codes, 'op': op, 'free_target': [True if s else rng.random() < 0.5, rng.choice([3, 8, 16, 33, 52, 64, 70]), rng.choice([-3, 0, 1, 5, 17, 40, 64, 66])],
+            'r': rng.choice(RMODES), 'o': rng.choice(OMODES), 'target': 'out', 'route': rng.choice(['numpy', 'method'])}      # (out_like= computes on the float values - the value method - and is not this model)
+
+def run_free_target(cases, res):
+    fx = lib.impl(); import numpy as np
+    pend = []; reqs = []
+    for c in cases:
+        s, nw, nf = c['f']; op = c['op']; ts, tnw, tnf = c['free_target']
+        try:
+            x = A.mk(fx, np, s, nw, nf, c['codes'], shape=(len(c['codes']),))
+            tgt = fx.Fxp(0.0 if c['target'] == 'out' else None, ts, tnw, tnf, rounding=c['r'], overflow=c['o'])
+            kw = {'out_like': tgt} if c['target'] == 'out_like' else {'out': tgt}
+            z = getattr(x, op)(**kw) if (c['route'] == 'method' or c['target'] == 'out_like') else getattr(np, op)(x, **kw)
+            obs = (A.fmt_of(z), lib.codes_of(z), tuple(lib.status3(z)[:2]))
+        except Exception as e:
+            obs = ('raised', lib.exc_name(e), str(e)[:100])
+        pend.append((c, obs))
+        reqs.append([112, 0 if op == 'sum' else 2] + e_fmt(s, nw, nf) + [len(c['codes'])] + e_list(c['codes']) + e_fmt(ts, tnw, tnf) + [RMODES.index(c['r']), OMODES.index(c['o'])])
+    outs = model_call(reqs)
+    for (c, obs), mo in zip(pend, outs):
+        kind_, rd_ = outcome(mo)
+        res.count('F:sum-prod-into-any-format-vs-model', key=repr(c), nontrivial=True)
+        if kind_ == 'ok':
+            mf_ = (rd_.b(), rd_.z(), rd_.z()); mc_ = rd_.lst(rd_.z); mfl_ = (rd_.b(), rd_.b())
+            if obs != (mf_, mc_, mfl_):
+                res.fail(c, 'model Reduce.fxp_%s_into disagrees with the implementation (sum / prod into an arbitrary format)' % c['op'], expected=(mf_, mc_, mfl_), got=obs); res.failures[-1]['no_input'] = True
+        elif kind_ == 'unmodelled': continue
+        elif obs[0] != 'raised':
+            res.fail(c, 'model Reduce.fxp_%s_into raises where the implementation returns' % c['op'], expected=str(kind_), got=obs); res.failures[-1]['no_input'] = True
 
 def shard(shard, nshards, rng, tier, extra):
     res = Result()
     run_cases([gen(rng) for _ in range((15000 if tier == 'quick' else 120000) // nshards)], res)
     run_vpath_int(rng, (900 if tier == 'quick' else 8000) // nshards, res)
     run_target([gen_target(rng) for _ in range((3000 if tier == 'quick' else 25000) // nshards)], res)
+    run_free_target([gen_free_target(rng) for _ in range((3000 if tier == 'quick' else 25000) // nshards)], res)
     return res
 
 def run(seed, tier):
@@ -276,6 +321,9 @@ def replay_vpath(c):
 
 def replay(payload):
     if 'vcodes' in payload.get('case', {}): return replay_vpath(payload['case'])
+    if 'free_target' in payload.get('case', {}):
+        res = Result(); run_free_target([payload['case']], res)
+        return {'holds': not res.failures, 'failures': res.failures}
     if 'target' in payload.get('case', {}):
         res = Result(); run_target([payload['case']], res)
         return {'holds': not res.failures, 'failures': res.failures}
